@@ -522,6 +522,7 @@ func resetOrderMonitor(m *Sim, x *Exec) {
 	}
 	open := [2]map[uint32]*req{{}, {}}
 	seen := [2]map[uint32]bool{{}, {}}
+	answered := [2]map[uint32]bool{{}, {}}
 	for _, ev := range x.Events {
 		if ev.Pkt == nil || ev.Pkt.dec == nil {
 			continue
@@ -532,7 +533,8 @@ func resetOrderMonitor(m *Sim, x *Exec) {
 				for _, p := range c.Params {
 					if p.Typ == 13 && len(p.Val) >= 12 {
 						rsn := be32(p.Val)
-						if open[ev.From][rsn] == nil {
+						// (a request the peer has answered already may be repeated when the answer is late)
+						if open[ev.From][rsn] == nil && !answered[ev.From][rsn] {
 							r := &req{sids: map[uint16]bool{}, last: be32(p.Val[8:])}
 							for o := 12; o+1 < len(p.Val); o += 2 {
 								r.sids[be16(p.Val[o:])] = true
@@ -550,6 +552,7 @@ func resetOrderMonitor(m *Sim, x *Exec) {
 					// what follows belongs to the next incarnation
 					if p.Typ == 16 && len(p.Val) >= 8 && be32(p.Val[4:]) != 6 {
 						delete(open[1-ev.From], be32(p.Val))
+						answered[1-ev.From][be32(p.Val)] = true
 					}
 				}
 			case ev.Kind == "send" && (c.Typ == wDATA || c.Typ == wIDATA):
